@@ -15,5 +15,6 @@ CONSTANTS
   MaxSignFail = 1
   History = TRUE
   Matrix = FALSE
+  Script = "none"
 INVARIANTS Emit
 CHECK_DEADLOCK FALSE
